@@ -26,6 +26,7 @@ RULE = (
     "exec monitor: every source text handed to exec is captured and must match an AST allow-list; import monitor: "
     "importlib.import_module calls are restricted to the field-type modules; tripwires stay untouched. Non-trivial = "
     "definition outside the grammar, or inside it with a keyword / template-namespace identifier."
+    " Also: definitions that follow a valid definition with the same identifier (binary / JSON lines), names given as bytes (undecodable bytes included; constructor and msgpack bin), and every field view of an accepted descriptor."
 )
 ASSUMPTIONS = [
     "the exec/import monitors shadow flow.record.base.exec / importlib from the check process (no repo hook)",
